@@ -15,7 +15,8 @@ The two `waitall` time-outs are parameters (`Ladder`, `none` = wait without boun
 
 What each main-thread activity does on EOFError / KeyboardInterrupt (from the code):
 * blocked in `channel.receive()`: `_finished_receiving` enqueues ENDMARKER → `receive` raises EOFError →
-  `executetask`'s `except EOFError` ignores it → the task finishes normally (before `trigger_shutdown`);
+  `_executetask`'s `except BaseException` ignores it because receiving has finished (it has: the EOFError comes from
+  `_finished_receiving`) → the task finishes normally (before `trigger_shutdown`);
 * `time.sleep` / computing: EOF has no effect; SIGINT raises KeyboardInterrupt inside the body →
   `executetask`'s `except KeyboardInterrupt: channel.close(..); raise` → `Reply.run` catches BaseException
   and stores it → `_perform_spawn` removes the reply → the pool is idle, the primary loop sees
